@@ -328,8 +328,8 @@ class History:
             if "winv" in tx:
                 if tx.get("envelope"):
                     self.stats.bump(self.stats.by_event, "_inside_EvOK")
-                    names = ["L1", "L2", "N2", "F1", "N1", "P2"]
-                    props = {"L1": "C03", "L2": "C03", "N2": "C02", "F1": "C01", "N1": "C01", "P2": "C07"}
+                    names = ["L1", "L2", "N2", "F1", "N1", "P2", "J"]
+                    props = {"L1": "C03", "L2": "C03", "N2": "C02", "F1": "C01", "N1": "C01", "P2": "C07", "J": "C02"}
                     for nm, okv in zip(names, tx["winv"]):
                         if not okv:
                             self.findings.append({"property": props[nm], "monitor": "lean_winv", "signature": {"eq": nm},
